@@ -50,7 +50,9 @@ pub fn check(case: &Case, rec: &mut Rec) -> Option<Failure> {
             1 => if i % 2 == 0 { 50.0 } else { 150.0 },      // alternating
             2 => 100.0,                                      // flat
             3 => (x - 0.01).max(0.5),                        // monotone down
-            _ => 100.0 + (rng.unit() - 0.5) * 50.0,          // random
+            4 => 100.0 + (rng.unit() - 0.5) * 50.0,          // random
+            5 => if i == 2 { f64::NAN } else if x.is_nan() { 99.0 } else { (x - 0.01).max(0.5) },  // one NaN, then falling
+            _ => if i == 2 { f64::NAN } else { 100.0 },      // one NaN, then flat
         };
         if bars {
             inst.next_bar(&B { o: x, h: x + 1.0, l: x - 0.4, c: x + 0.3, v: 10.0 + (i % 5) as f64 });
@@ -102,11 +104,11 @@ pub fn generate(r: &mut Runner) {
     r.log_every = u64::MAX;
     for (k, name) in ind::NAMES.iter().enumerate() {
         let (np, nm) = ind::arity(name).unwrap();
-        for shape in 0..5usize {
+        for shape in 0..7usize {
             if r.tier == Tier::Quick && (k + shape) % 2 == 1 {
                 continue;
             }
-            let p = [1usize, 7, 64, 200, 512][(k + shape) % 5];
+            let p = [1usize, 7, 64, 200, 512, 14, 3][(k + shape) % 7];
             let p = if matches!(*name, "MeanAbsoluteDeviation" | "CommodityChannelIndex" | "EfficiencyRatio") { p.min(64) } else { p };
             let ps: Vec<usize> = (0..np).map(|_| p).collect();
             let ms: Vec<f64> = (0..nm).map(|_| 2.0).collect();
@@ -118,4 +120,4 @@ pub fn generate(r: &mut Runner) {
     }
 }
 
-pub const RULE: &str = "short: all 22 indicators, periods 1..=16 densely then geometrically to 48 (quick) / 512 (thorough): bincode size after EVERY input of 2n+5 inputs must stay <= 256 + 64·Σperiods and be constant after the first input; long: streams of 10^5 (quick) / 10^6 (thorough) inputs of five shapes (monotone up, alternating, flat, monotone down, random — shapes matter for data-dependent structures) with periods from {1,7,64,200,512}: bincode size at 8 checkpoints, and live heap bytes (counting global allocator of the harness process) after warm-up (3n+10 inputs) vs at the end must not grow by more than the same bound. Every case non-trivial.";
+pub const RULE: &str = "short: all 22 indicators, periods 1..=16 densely then geometrically to 48 (quick) / 512 (thorough): bincode size after EVERY input of 2n+5 inputs must stay <= 256 + 64·Σperiods and be constant after the first input; long: streams of 10^5 (quick) / 10^6 (thorough) inputs of seven shapes (monotone up, alternating, flat, monotone down, random, one NaN then falling, one NaN then flat — shapes matter for data-dependent structures) with periods from {1,7,64,200,512}: bincode size at 8 checkpoints, and live heap bytes (counting global allocator of the harness process) after warm-up (3n+10 inputs) vs at the end must not grow by more than the same bound. Every case non-trivial.";
